@@ -56,3 +56,15 @@ def workdir():
 
 def silence_logging():
     logging.disable(logging.CRITICAL)
+
+
+def cap_memory(gib=3.0):
+    """Bound this process's address space so that code which tries to build something enormous gets a MemoryError (which the oracles see as an
+    arbitrary exception) instead of taking the machine down.  Only lowers the limit; returns the limit in force."""
+    import resource
+    soft, hard = resource.getrlimit(resource.RLIMIT_AS)
+    want = int(gib * (1 << 30))
+    if soft == resource.RLIM_INFINITY or soft > want:
+        resource.setrlimit(resource.RLIMIT_AS, (want, hard))
+        return want
+    return soft
